@@ -53,6 +53,15 @@ def run(ctx, rep):
     cn = Canon(prog)
     untag = lambda x: re.sub(r"@bb\d+", "", x)
     for nm, a, b in pairs:
+        # one definition that simply hands its arguments on to the other is the same function by construction
+        deleg = False
+        for x, y in ((a, b), (b, a)):
+            ro = strip_refs(Origins(x).return_origin())
+            if ro[0] == "call" and ro[1] == y.path and [strip_refs(t)[:2] for t in ro[3]] == [("param", i + 1) for i in range(x.body["argc"])]:
+                deleg = True
+        if deleg:
+            rep.ok("R16.1", "duplicate:" + nm, detail="one definition delegates to the other", at=b.span, fn=b.path)
+            continue
         if a.body["locals"][0]["ty"] == "bool":
             # the two definitions return true on the same set of inputs: same conjunctions of canonical facts
             sa = sorted(untag(" & ".join(sorted(fact_s(x) for x in c))) for c in cn.dnf_fn(a, truth=True))
